@@ -61,13 +61,34 @@ def run(mod, pid, tier, seed, args, t0):
     if getattr(mod, "NEEDS_CLI", False):
         vlib.build_cli()
     # ---- 3. correspondence
-    rng = random.Random(seed * 1000003 + 17)
-    if args.replay:
-        rep = json.load(open(args.replay))
-        cases = [rep["case"]]
-    else:
-        cases = mod.corpus() + mod.generate(rng, tier)
-    res = mod.execute(cases, tier) if rc == 0 else None
+    # the thorough tier repeats generation + execution in several rounds with independent generator states (memory stays bounded);
+    # it stops at the first round that shows a disagreement
+    rounds = 1 if (args.replay or tier != "thorough") else max(1, int(os.environ.get("VERIF_ROUNDS", "4")))
+    res = None
+    for rnd in range(rounds):
+        rng = random.Random(seed * 1000003 + 17 + rnd * 7919)
+        if args.replay:
+            rep = json.load(open(args.replay))
+            cases = [rep["case"]]
+        else:
+            cases = (mod.corpus() if rnd == 0 else []) + mod.generate(rng, tier)
+        r1 = mod.execute(cases, tier) if rc == 0 else None
+        if r1 is None:
+            break
+        if res is None:
+            res = r1
+        else:
+            res["disagreements"] += r1["disagreements"]
+            a, b = res["stats"], r1["stats"]
+            for k, v in b.items():
+                if isinstance(v, (int, float)) and not isinstance(v, bool) and isinstance(a.get(k), (int, float)):
+                    a[k] = a[k] + v
+                elif isinstance(v, dict) and isinstance(a.get(k), dict):
+                    for kk, vv in v.items():
+                        a[k][kk] = a[k].get(kk, 0) + vv if isinstance(vv, (int, float)) and isinstance(a[k].get(kk, 0), (int, float)) else vv
+        res["stats"]["rounds"] = rnd + 1
+        if res["disagreements"]:
+            break
     stats = res["stats"] if res else {}
     n = 0
     listed = {e["id"]: e for e in vlib.known_findings(pid)}
